@@ -47,6 +47,28 @@ def parse_qsl_text(qs, encoding="utf-8"):
         yield (name.decode(encoding), value.decode(encoding))
 
 
+def read_text_body(fp, length, encoding):
+    """Read from the text file ``fp`` the characters whose ``encoding`` is
+    ``length`` bytes long: a Content-Length counts bytes, ``fp.read(n)``
+    counts characters."""
+
+    if length is None or length < 0:
+        return fp.read()
+    text = ""
+
+    while True:
+        missing = length - len(text.encode(encoding))
+
+        if missing <= 0:
+            return text
+        # no character takes more than four bytes in the encodings in use
+        chunk = fp.read(max(1, missing // 4))
+
+        if not chunk:
+            return text
+        text += chunk
+
+
 def text_(s, encoding="latin-1", errors="strict"):
     if isinstance(s, bytes):
         return str(s, encoding, errors)
